@@ -126,7 +126,7 @@ func smallBadgerOpts(dir string) badger.Options {
 	if dir == "" {
 		o = o.WithInMemory(true)
 	} else {
-		o = o.WithValueLogFileSize(1 << 20).WithSyncWrites(false)
+		o = o.WithValueLogFileSize(1 << 20).WithSyncWrites(false).WithTruncate(true) // (as pool.go opens it: a torn tail after a kill is cut off)
 	}
 	return o
 }
